@@ -190,14 +190,14 @@ def build(model, N, rng):
     O = pyPRISM.omega
     if model == 'G':
         s = float(rng.choice([1.0, 0.5, 1.2, float(10 ** rng.uniform(-0.7, 0.5))]))
-        return (O.Gaussian(sigma=s, length=N), {'sigma': s}, s)
+        return (O.Gaussian(sigma=s, length=(float(N) if rng.random() < 0.2 else N)), {'sigma': s}, s)
     if model == 'RING':
         s = float(rng.choice([1.0, 0.5, 1.2, float(10 ** rng.uniform(-0.7, 0.5))]))
         return (O.GaussianRing(sigma=s, length=N), {'sigma': s}, s)
     if model == 'FJC':
         l = float(rng.choice([1.0, 0.5, 1.2, float(10 ** rng.uniform(-0.7, 0.5))]))
         cls = O.FJC if rng.random() < 0.3 else O.FreelyJointedChain
-        return (cls(length=N, l=l), {'l': l}, l)
+        return (cls(length=(float(N) if rng.random() < 0.2 else N), l=l), {'l': l}, l)
     if model == 'NFJC':
         l = 1.0
         cls = O.NFJC if rng.random() < 0.3 else O.NonOverlappingFreelyJointedChain
@@ -276,6 +276,29 @@ def run_case(ctx, case):
             return
         raise
     kind = kind_of(obj)
+    # ---- an array returned earlier survives later evaluations (of this and of a second live object); k may be read-only
+    with np.errstate(all='ignore'):
+        raw = obj.calculate(np.array(k))
+        keep = np.array(raw, copy=True)
+        kro = np.array(k)
+        kro.flags.writeable = False
+        try:
+            o_ro = np.array(obj.calculate(kro), dtype=float)
+            if not np.array_equal(o_ro, out, equal_nan=True):
+                ctx.violation('omega:%s-readonly-k-differs' % kind, '%s: result changes when k is read-only' % desc)
+        except ValueError as e:
+            if 'read-only' in str(e):
+                ctx.violation('omega:%s-writes-into-k' % kind, '%s: calculate writes into its k argument' % desc)
+            else:
+                raise
+        try:
+            obj2, _, _ = build(model, max(2, N // 2 + 1), rng)
+            obj2.calculate(np.array(k[: max(1, len(k) // 2)]))
+        except Exception:
+            pass
+        obj.calculate(np.array(k[::-1]))
+        if not np.array_equal(np.asarray(raw), keep, equal_nan=True):
+            ctx.violation('omega:%s-earlier-result-overwritten' % kind, '%s: an array returned by calculate changed after later evaluations' % desc)
     # ---- k-independence: subsets, reversed order, single wavenumbers
     ctx.hook('k_independence_probe')
     tol = 1e-9 * max(N, 1)
